@@ -561,10 +561,3 @@ func c15(c *fw.Ctx) {
 	c.Floor("single_byte_code_points_covered", 3000)
 }
 
-func hash64s(s string) uint64 {
-	h := uint64(1469598103934665603)
-	for i := 0; i < len(s); i++ {
-		h = (h ^ uint64(s[i])) * 1099511628211
-	}
-	return h
-}
